@@ -29,19 +29,43 @@ def run_check(patch, prop):
     return c.returncode, kinds
 
 seeds = []
-for prop in sorted(os.listdir(inc)):
-    d = os.path.join(inc, prop)
-    if not os.path.isdir(d):
+for rnd, base in (("", inc), ("r2", os.path.join(inc, "r2"))):
+    if not os.path.isdir(base):
         continue
-    for mut in sorted(os.listdir(d)):
-        if mut.startswith("mut"):
-            seeds.append((prop, mut))
+    for prop in sorted(os.listdir(base)):
+        d = os.path.join(base, prop)
+        if not os.path.isdir(d) or not prop.startswith("C"):
+            continue
+        for mut in sorted(os.listdir(d)):
+            if mut.startswith("mut"):
+                seeds.append((prop, mut, rnd, os.path.join(d, mut)))
+for l in (open(os.path.join(inc, "verify_r2.log")) if os.path.exists(os.path.join(inc, "verify_r2.log")) else []):
+    m = re.match(r"(C\d+/mut\d): demo_before=(\d+) demo_after=(\d+) suite=(\w+)", l)
+    if m:
+        verify["r2/" + m.group(1)] = (int(m.group(2)), int(m.group(3)), m.group(4))
 only = sys.argv[1:]
-for prop, mut in seeds:
-    sid = "%s-%s" % (prop, mut)
+# regression seeds: the reverse of each fix: commit
+reg = os.path.join(inc, "regress")
+for name in (sorted(os.listdir(reg)) if os.path.isdir(reg) else []):
+    sid = "regress-" + name
     if only and sid not in only:
         continue
-    src = os.path.join(inc, prop, mut)
+    info = json.load(open(os.path.join(reg, name, "info.json")))
+    dst = os.path.join(out, sid)
+    os.makedirs(dst, exist_ok=True)
+    shutil.copy(os.path.join(reg, name, "patch.diff"), os.path.join(dst, "patch.diff"))
+    rc, kinds = run_check(os.path.join(dst, "patch.diff"), info["property"])
+    json.dump({"id": sid, "breaks_property": info["property"], "origin": "reverse of fix: commit %s (ported onto the hook commit where needed)" % info["fix"],
+               "needs_to_manifest": info["what"], "confirmed_in_scratch_worktree": "the defect was reproduced against the real code before the fix (DESIGN.md section 0.4); the repository's tests pass with and without the fix",
+               "ran": "tools/run_seeds.py", "check_exit": rc, "detected": rc == 1, "violation_kinds": kinds},
+              open(os.path.join(dst, "meta.json"), "w"), indent=1)
+    print(sid, rc, kinds[:3], flush=True)
+for prop, mut, rnd, src in seeds:
+    sid = "%s-%s%s" % (prop, (rnd + "-") if rnd else "", mut)
+    if only and sid not in only:
+        continue
+    if not only and os.path.exists(os.path.join(out, sid, "meta.json")) and os.environ.get("SEEDS_REDO") != "1":
+        continue
     dst = os.path.join(out, sid)
     os.makedirs(dst, exist_ok=True)
     patch = "patch_ported.diff" if os.path.exists(os.path.join(src, "patch_ported.diff")) else "patch.diff"
@@ -52,7 +76,7 @@ for prop, mut in seeds:
         if os.path.exists(os.path.join(src, f)):
             shutil.copy(os.path.join(src, f), os.path.join(dst, f))
     rc, kinds = run_check(os.path.join(dst, "patch.diff"), prop)
-    v = verify.get("%s/%s" % (prop, mut))
+    v = verify.get("%s%s/%s" % ((rnd + "/") if rnd else "", prop, mut))
     notes = open(os.path.join(dst, "notes.md")).read() if os.path.exists(os.path.join(dst, "notes.md")) else ""
     meta = {
         "id": sid, "breaks_property": prop, "origin": "independent sub-agent given only the property text and a scratch worktree",
